@@ -29,3 +29,24 @@ MANIFEST_TEXT["C09"] = {
     "note": "Trusted: Lean kernel, extractor, harness. Inputs assumed < 2^32 bytes (uint32 truncation not modelled). Serialisers modelled as check-then-concatenate (justified by layout_contiguous + behavioural comparison). protobuf decoding itself is not modelled.",
     "technique": "Lean 4 proof over a Go-faithful executable model + differential correspondence",
 }
+
+PROPS["C20"] = {
+    "rule": "go1.26.8 testing/synctest: the real trust.RetryHTTPSGetter.Get in a virtual-time bubble with a scripted wrapped getter; exhaustive grid Timeout{0,1s,7s,8s,2m} x Max{1s,3s,4s,30s,5m} x call duration{0,1s,Max} x {fail for ever, k failures then success for every k = 0..attempts+1}, Max{0,-1s} x the same timeouts x duration{0,1s,250ms} (F13), seeded random scripts (thorough: 30000, plus 6 real-time millisecond runs outside the bubble); the exact virtual timestamps of every call and of the return are compared with the model's trace; a case is non-trivial when at least one retry happened; distinct = distinct (Timeout, Max, script)",
+    "prebuild": [
+        {"cwd": "{root}/harness-synctest", "cmd": ["go1.26.8", "mod", "edit", "-replace", "github.com/google/go-tdx-guest={repo}"]},
+        {"cwd": "{root}/harness-synctest", "copy": [["{repo}/go.sum", "{root}/harness-synctest/go.sum"]],
+         "cmd": ["go1.26.8", "test", "-c", "-o", "{bin}/tdxsynctest", "."]},
+    ],
+    "driver_cmd": ["env", "TDX_OUT={out}", "TDX_TIER={tier}", "TDX_SEED={seed}", "{bin}/tdxsynctest", "-test.run", "^TestC20$", "-test.count=1", "-test.timeout=20m"],
+    "trusted_base": ["testing/synctest (go1.26.8) virtual clock and its scheduling of simultaneous timers; OS timers are exercised only by the 6 millisecond-scale real-time runs of the thorough tier",
+                     "where Go's select may go either way (retry timer and deadline ready at the same virtual instant) the model follows the branch the real code took (tie= token of the case line)"],
+    "assumptions": ["the wrapped getter returns from every call (a getter that blocks for ever is outside the model and outside the property)",
+                    "|MaxRetryDelay| < 2^62 ns, so that delay+delay does not overflow int64",
+                    "MaxRetryDelay <= 0 is the known finding F13 (busy loop); the theorems no_busy_loop / terminates / gives_up_in_bounded_time assume 0 < MaxRetryDelay"],
+}
+
+MANIFEST_TEXT["C20"] = {
+    "text": "Lean theorems over an executable virtual-time model of RetryHTTPSGetter.Get, for every script of the wrapped getter, every Timeout/MaxRetryDelay (also <= 0) and every resolution of timer/deadline ties (returns_first_success_intact, no_call_after_success, timeout_only_after_failures, each_wait_le_max, no_busy_loop, waits_exact = min(2^(i+2) s, Max), terminates with a computable call bound, gives_up_in_bounded_time <= max(Timeout,0) + longest call; max_zero_spins_witness = known finding F13), tied to trust.go by the regenerated initial delay / default constants and by running the real Get under go1.26.8 testing/synctest against a scripted getter on an exhaustive grid: the exact virtual timestamps of every call and of the return equal the model's trace.",
+    "note": "Partial: OS timers and a wrapped getter that never returns are outside the model; virtual-time traces are exact (real time is only sanity-checked at millisecond scale in the thorough tier). Trusted: Lean kernel (axioms propext/Classical.choice/Quot.sound at most), extractor, harness, testing/synctest. When the retry timer and the deadline fire at the same virtual instant Go may take either branch; the model is proved for every resolution and the comparison follows the branch the real code took. Known finding F13 (not fixed, spec clauses conflict at Max = 0): MaxRetryDelay <= 0 gives zero-length waits, a busy loop until the deadline and a random number of extra attempts after it.",
+    "technique": "Lean 4 proof over an executable model + differential correspondence in virtual time (testing/synctest, exhaustive grid)",
+}
